@@ -293,8 +293,10 @@ struct xcm_socket *xcm_accept_a(struct xcm_socket *server_s,
     struct xcm_socket *conn_s;
 
 restart:
-    conn_s = socket_create(server_s->proto, xcm_socket_type_conn,
-			   server_s->is_blocking);
+    /* created in blocking mode, like in xcm_connect_a(): a xcm.blocking
+       entry in the map must never make xcm_set_blocking() "finish
+       outstanding work" on a socket that is not accepted yet */
+    conn_s = socket_create(server_s->proto, xcm_socket_type_conn, true);
     if (conn_s == NULL)
 	goto err;
 
@@ -306,6 +308,10 @@ restart:
 
     if (set_attrs(conn_s, server_s, attrs) < 0)
 	goto err_close;
+
+    /* the blocking mode is inherited, unless overridden */
+    if (attrs == NULL || !xcm_attr_map_exists(attrs, XCM_ATTR_XCM_BLOCKING))
+	conn_s->is_blocking = server_s->is_blocking;
 
     if (xcm_tp_socket_accept(conn_s, server_s) < 0) {
 	if (is_blocking && errno == EAGAIN) {
